@@ -127,6 +127,57 @@ def c01(ctx):
                        "tables trace-validated; non-trivial = the model predicts 'satisfied' for at least one subset")
 
 
+def c07(ctx):
+    rng = random.Random(ctx.seed)
+    thorough = ctx.tier == "thorough"
+    ctx.model_violation = None
+    # monotonicity over all sub-lists: MC_Tree's verdict vectors (model invariant MonoInv + direct check on the observed verdicts)
+    run_tree(ctx, "tree", rng, 4 if thorough else 3)
+    # permutations, duplications, re-spellings
+    roles = Roles(ctx, rng)
+    texts, universe, sel = roles.tree_roles()
+    t = ctx.tables
+    exprs = [texts[0] + " AND " + texts[2], texts[0] + " OR (" + texts[1] + " AND " + texts[3] + ")", texts[3],
+             "(" + texts[2] + " OR " + texts[0] + ") AND " + texts[1], texts[1] + " OR " + texts[3] + " AND " + texts[0]]
+    uni = universe[:4] if not thorough else universe
+    uni = list(dict.fromkeys(uni))
+    ctx.write_params("MC_AllowedSpell_P", {"Exprs": tla_seq(exprs[: 5 if thorough else 3]), "Universe": tla_seq(uni), "MaxDup": "1",
+                                           "MaxResp": "2" if thorough else "1", "MixK": str(ctx.seed % 2)})
+    ctx.notes.append("allowedspell: exprs=%s universe=%s" % (exprs, uni))
+    r = ctx.run_tlc("allowedspell", "MC_AllowedSpell", "MC_AllowedSpell", timeout=3000)
+    if r["violated"]:
+        raise Infra("model-level invariant %s failed in MC_AllowedSpell (specification problem, not a verdict)" % r["violated"])
+    ctx.drive("trace", "sat", 1200 if thorough else 300, leaves=6)
+    ctx.validate_trace("trace")
+    return finish(ctx, relevant={"verdict", "non-monotone", "verdict-depends-on-list-form"},
+                  rule="every non-empty sub-list of the allowed universe in every order, with one entry duplicated and one (thorough: two) "
+                       "entries re-spelled (case of listed ids, blanks, one/two pairs of parentheses): the model proves the list denotes the "
+                       "same set of terms, the real Satisfies must return the base list's verdict; all A subset-of B pairs for monotonicity; "
+                       "non-trivial = more than one list form / satisfied")
+
+
+def c10(ctx):
+    rng = random.Random(ctx.seed)
+    thorough = ctx.tier == "thorough"
+    roles = Roles(ctx, rng)
+    texts, universe, sel = roles.tree_roles()
+    ctx.write_params("MC_Tree_P", {"MaxLeaves": "3", "LeafTexts": tla_seq(texts[:3] if not thorough else texts), "Universe": tla_seq(universe)})
+    ctx.write_params("MC_Rewrite_P", {"StartLeaves": "3", "MaxSteps": "2" if thorough else "1", "MaxSize": "8" if thorough else "7"})
+    ctx.notes.append("rewrite: roles=%s texts=%s universe=%s" % (sel, texts, universe))
+    r = ctx.run_tlc("rewrite", "MC_Rewrite", "MC_Rewrite", timeout=3400)
+    if r["violated"]:
+        raise Infra("model-level invariant %s failed in MC_Rewrite (the rewrite rules themselves are wrong: specification problem)" % r["violated"])
+    ctx.model_violation = None
+    run_tree(ctx, "tree", rng, 4 if not thorough else 5)
+    ctx.drive("trace", "sat", 1200 if thorough else 300, leaves=10)
+    ctx.validate_trace("trace")
+    return finish(ctx, relevant={"verdict", "extract-invented", "extract-missing", "extract-duplicate", "extract-error", "non-monotone"},
+                  rule="every tree up to 3 leaves x every chain of rewrites (commute, re-associate, idempotence, absorption, distribution both "
+                       "ways) applied at any node x 3 renderings (minimal/full parentheses, widened blanks) x all allowed subsets: the real "
+                       "verdicts must equal the ORIGINAL's; term-preserving chains keep the ExtractLicenses set; '(E) AND (F)' / '(E) OR (F)' "
+                       "compositions; non-trivial = satisfied under some subset")
+
+
 def c06(ctx):
     return tree_family(ctx, {"extract", "extract-error", "extract-invented", "extract-missing", "extract-duplicate",
                              "extract-roundtrip", "extract-self-satisfy"}, "extract",
@@ -564,7 +615,7 @@ def c05(ctx):
                        "non-trivial = accepted by the grammar")
 
 
-CHECKS = {"C01": c01, "C02": c02, "C03": c03, "C04": c04, "C15": c15, "C05": c05, "C06": c06, "C08": c08, "C09": c09, "C11": c11}
+CHECKS = {"C01": c01, "C02": c02, "C03": c03, "C04": c04, "C15": c15, "C05": c05, "C06": c06, "C07": c07, "C08": c08, "C10": c10, "C09": c09, "C11": c11}
 
 MC = "model_checking"
 INFO = {
